@@ -850,20 +850,128 @@ def tucker_cases(tier, rng):
                     yield dict(entry=entry, shape=s, modes=modes, rank=[rng.choice([1, 2, 3, 5]) for _ in range(k)], init=init, tol=tol, n_iter_max=nit,
                                seed=rng.randrange(10 ** 6), svd="truncated_svd", fixed=None, mask=False, dtype=dtype)
         # fixed factors (orthonormal, user supplied) and missing values
-        for fixed in ([0], [n - 1], list(range(n - 1))):
-            for nit in (1, 3):
+        # the SVD initialisation alone (n_iter_max = 0) on mode subsets / permuted modes with ranks that differ between the listed positions
+        for modes in ([n - 1, 0], list(range(1, n)), [n - 1], None):
+            k = n if modes is None else len(modes)
+            for rank in ([1 + (j % 2) for j in range(k)], [2 - (j % 2) for j in range(k)]):
+                if quick and rng.random() < 0.3:
+                    continue
+                yield dict(entry=("tucker" if modes is None and rng.random() < 0.5 else "partial_tucker"), shape=s, modes=modes, rank=rank, init="svd",
+                           tol=rng.choice([0, 1e-5]), n_iter_max=rng.choice([0, 0, 1]),
+                           seed=rng.randrange(10 ** 6), svd=rng.choice(["truncated_svd", "symeig_svd"]), fixed=None, mask=False, dtype=rng.choice(["float64", "complex128"]))
+        # (also an unsorted list of fixed modes -- for a matrix it names every mode: the initialisation is returned -- and complex data)
+        for fixed in ([0], [n - 1], list(range(n - 1)), [n - 1, 0]):
+            for nit in (1, 3, 0):
                 if quick and rng.random() < 0.5:
                     continue
                 rank = [max(1, min(d, 1 + (k + rng.randrange(2)) % 3)) for k, d in enumerate(s)]      # ranks that differ between modes
                 yield dict(entry="tucker", shape=s, modes=None, rank=rank, init="user", tol=rng.choice([0, 1e-5, 1e10]), n_iter_max=nit,
-                           seed=rng.randrange(10 ** 6), svd="truncated_svd", fixed=fixed, mask=False)
+                           seed=rng.randrange(10 ** 6), svd="truncated_svd", fixed=fixed, mask=False, dtype=rng.choice(["float64", "float64", "complex128"]))
         for entry in ("tucker", "partial_tucker"):
             for nit in (1, 3):
                 yield dict(entry=entry, shape=s, modes=None, rank=[min(2, d) for d in s], init="svd", tol=rng.choice([0, 1e-5]), n_iter_max=nit,
                            seed=rng.randrange(10 ** 6), svd="truncated_svd", fixed=None, mask=True)
 
 
-def run_tucker_case(tc):
+
+class HooiSpy:
+    """harness-level interposition (no source hook): svd_interface / multi_mode_dot as bound inside tensorly.decomposition._tucker are
+    replaced for the duration of one call by wrappers that log the call (codes of Model/StructureHooi.v: 100+i = SVD whose U becomes the
+    factor at position i, 2 = full projection, 10+i = projection skipping position i, 3 = reconstruction) and remember the outputs of
+    the assigning calls"""
+
+    def __enter__(self):
+        import tensorly.decomposition._tucker as M
+        self.M, self.o_svd, self.o_mmd = M, M.svd_interface, M.multi_mode_dot
+        self.log, self.outs = [], []
+        self.pending, self.n_init = None, 0
+        me = self
+
+        def svd(*a, **kw):
+            r = me.o_svd(*a, **kw)
+            if me.pending is not None:
+                i, me.pending = me.pending, None
+            else:
+                i = me.n_init; me.n_init += 1
+            me.log.append(100 + i); me.outs.append(np.array(r[0], copy=True))
+            return r
+
+        def mmd(tensor, mats, modes=None, skip=None, transpose=False):
+            r = me.o_mmd(tensor, mats, modes=modes, skip=skip, transpose=transpose)
+            if not transpose:
+                c = 3
+            elif skip is None:
+                c = 2
+            else:
+                c = 10 + int(skip); me.pending = int(skip)
+            me.log.append(c); me.outs.append(np.array(r, copy=True) if c == 2 else None)
+            return r
+        M.svd_interface, M.multi_mode_dot = svd, mmd
+        return self
+
+    def __exit__(self, *a):
+        self.M.svd_interface, self.M.multi_mode_dot = self.o_svd, self.o_mmd
+        return False
+
+    def flags(self, core, factors, fixed_glue=False):
+        """(the returned core is the output of the last full projection, which follows every factor assignment ; every returned factor
+        is the U of the last SVD logged for its position).  fixed_glue: tucker(fixed_factors=...) projects once more onto the fixed modes"""
+        log, outs = self.log, self.outs
+        p2 = [k for k, c in enumerate(log) if c == 2]
+        last_s = max([k for k, c in enumerate(log) if c >= 100], default=-1)
+        if fixed_glue:
+            f1 = len(p2) >= 2 and p2[-1] == len(log) - 1 and p2[-2] > last_s and np.array_equal(outs[p2[-1]], core)
+        else:
+            f1 = bool(p2) and p2[-1] > last_s and np.array_equal(outs[p2[-1]], core)
+        f2 = True
+        for i, f in enumerate(factors):
+            ks = [k for k, c in enumerate(log) if c == 100 + i]
+            f2 = f2 and bool(ks) and np.array_equal(outs[ks[-1]], f)
+        return bool(f1), bool(f2)
+
+
+def pred_hooi(tc, f1, f2):
+    """transcription of C08_hooi_core_projected / C08_hooi_factors_from_svd on the call log: whenever a sweep ran (or the SVD
+    initialisation was used) the core comes from a full projection that follows the last factor update, the factors from SVDs"""
+    all_fixed = tc["fixed"] is not None and len(set(tc["fixed"])) >= len(tc["shape"])
+    swept = tc["n_iter_max"] > 0 and not all_fixed
+    if (swept or (tc["init"] == "svd" and tc["fixed"] is None)) and not (f1 and f2):
+        return (("the returned core is not the output of a full projection that follows the last factor update" if not f1 else
+                 "a returned factor is not the output of the last SVD computed for its position"), "C08_hooi_core_projected_last")
+    return None
+
+
+def hooi_case_lit(cid, tc, spy, out):
+    """Gallina case comparing the call log of one tucker / partial_tucker run with Model/StructureHooi.v"""
+    n, tol = tc["n_iter_max"], tc["tol"]
+    sweeps = spy.log.count(10)
+    if not tol:
+        dec = [False] * n
+    elif tol >= 1e9:
+        dec = [True] * n
+    else:
+        dec = [False] * n
+        if 0 < sweeps < n:
+            dec[sweeps - 1] = True           # the run left the loop before the cap: the convergence test fired after this sweep
+    dl = "[" + "; ".join(C.boolc(b) for b in dec) + "]" if dec else "(@nil bool)"
+    s = tc["shape"]
+    mask, ts = C.boolc(bool(tc["mask"])), C.boolc(bool(tol))
+    core, factors = out
+    if tc["fixed"] is not None:
+        fx = sorted(set(tc["fixed"]))
+        upd = [f for m, f in enumerate(factors) if m not in fx]
+        f1, f2 = spy.flags(core, upd, fixed_glue=True) if len(fx) < len(s) else (False, False)
+        op = f"(DHooiFixed {C.nat(len(s))} {C.nat(len(fx))} {mask} {ts} {C.nat(n)} {dl})"
+    else:
+        k = len(s) if tc["modes"] is None else len(tc["modes"])
+        f1, f2 = spy.flags(core, factors)
+        ik = {"svd": "InitSvd", "random": "InitRandom"}.get(tc["init"], "InitUser")
+        op = f"(DHooi {ik} {C.nat(k)} {mask} {ts} {C.nat(n)} {dl})"
+    codes = C.nat_list(spy.log) if spy.log else "(@nil nat)"
+    return f"({cid}%N, {op}, (Ok [{codes}; [{int(f1)}]%nat; [{int(f2)}]%nat]))", (f1, f2)
+
+
+def run_tucker_case(tc, spy=None):
     from tensorly import decomposition as D
     from tensorly.decomposition._tucker import partial_tucker
     r = np.random.RandomState(tc["seed"])
@@ -883,11 +991,13 @@ def run_tucker_case(tc):
     if tc["entry"] == "tucker":
         if tc["fixed"] is not None:
             kw["fixed_factors"] = list(tc["fixed"])
-        st, out = C.call_impl(D.tucker, X, list(tc["rank"]), timeout=60, init=init, **kw)
+        with (spy if spy is not None else HooiSpy()):
+            st, out = C.call_impl(D.tucker, X, list(tc["rank"]), timeout=60, init=init, **kw)
         if st == "ok":
             out = (out[0], list(out[1]))
     else:
-        st, out = C.call_impl(partial_tucker, X, list(tc["rank"]), timeout=60, modes=tc["modes"], init=init, **kw)
+        with (spy if spy is not None else HooiSpy()):
+            st, out = C.call_impl(partial_tucker, X, list(tc["rank"]), timeout=60, modes=tc["modes"], init=init, **kw)
         if st == "ok":
             out = (out[0][0], list(out[0][1]))
     return st, out, X, fixed_in
@@ -924,8 +1034,10 @@ def pred_tucker_case(tc, st, out, X, fixed_in):
         for m in tc["fixed"]:
             if not np.array_equal(factors[m], fixed_in[m]):
                 return f"fixed factor {m} was changed", "C08_tucker_fixed_kept"
-    if not tc["mask"]:
-        # core = projection of the data onto the RETURNED factors (with a mask the data are re-imputed: not observable)
+    no_sweep_user = tc["init"] == "user" and (tc["n_iter_max"] == 0 or (tc["fixed"] is not None and len(set(tc["fixed"])) >= len(s)))
+    if not tc["mask"] and not no_sweep_user:
+        # core = projection of the data onto the RETURNED factors (with a mask the data are re-imputed: not observable; a user
+        # initialisation that is returned without a sweep keeps the user's core: C08_hooi_no_sweep_returns_init)
         e = float(np.max(np.abs(project(X, factors, modes) - core))) / max(1.0, float(np.max(np.abs(X))))
         if e > tol_for(X):
             return f"core is not the projection of the data onto the returned factors (residual {e:.2e})", "C08_tucker_core_projection"
@@ -1433,10 +1545,17 @@ def _all_fixed(i):
     return i.get("fn") == "parafac" and list(i.get("fixed") or []) == list(range(len(i.get("shape", []))))
 
 
-# no known finding at present: the classes "user initialisation and no sweep", "callback stop" of the CP drivers (repaired by
-# 3de556b) and "convergence exit" / "cap 0" of non_negative_tucker(_hals) / parafac2 (repaired by 1c1a684) are kept as corpus
-# inputs (corpus/C08/normalisation_exits.json)
-CLASSIFIERS = {}
+# the classes "user initialisation and no sweep", "callback stop" of the CP drivers (repaired by 3de556b) and "convergence exit" /
+# "cap 0" of non_negative_tucker(_hals) / parafac2 (repaired by 1c1a684) are kept as corpus inputs (corpus/C08/normalisation_exits.json)
+def symeig_complex_class(tc):
+    """input class of the known finding symeig_svd_complex: the factors come straight from svd_interface(method='symeig_svd') on complex
+    data (SVD initialisation, no HOOI sweep -- a sweep recomputes every factor with the default truncated_svd)"""
+    return (tc.get("svd") == "symeig_svd" and str(tc.get("dtype", "")).startswith("complex") and tc.get("init") == "svd"
+            and tc.get("n_iter_max") == 0 and tc.get("fixed") is None)
+
+
+CLASSIFIERS = {"symeig_svd_complex": lambda f: bool(f["inputs"].get("tucker_case")) and symeig_complex_class(f["inputs"])
+               and f["predicate"] in ("C08_tucker_orthonormal", "C08_tucker_core_projection", "C08_tucker_finite")}
 
 
 def _install_known_loader():
@@ -1556,7 +1675,8 @@ def _run(chk, rng):
                         observed=None if res["st"] != "ok" else {"weights": out.weights, "column_norms": [np.linalg.norm(f, axis=0) for f in out.factors]})
     # ---- Tucker / partial_tucker on every stopping path, with fixed factors, mask, the three SVD methods
     for tc in corpus_norm_cases("tucker_cases") + list(tucker_cases(tier, rng)):
-        st, out, X, fixed_in = run_tucker_case(tc)
+        hspy = HooiSpy()
+        st, out, X, fixed_in = run_tucker_case(tc, hspy)
         if st != "ok" and (str(out) == "timeout" or str(out).startswith("LinAlgError")):
             timeouts += str(out) == "timeout"; skipped += str(out) != "timeout"
             continue
@@ -1574,8 +1694,23 @@ def _run(chk, rng):
             obs = [shp(out[0])] + [shp(f) for f in out[1]] if st == "ok" else None
             cases.append(f"({cid}%N, {opl}, {shapes_lit(st, obs)})")
             meta.append(dict(kind="DTuckerX", shape=tc["shape"], spec=tc["rank"], kw={k: v for k, v in tc.items() if k not in ("shape", "rank")}))
+        if st == "ok" and not hspy.log and (tc["n_iter_max"] > 0 or tc["init"] == "svd") and not (tc["fixed"] is not None and len(set(tc["fixed"])) >= len(tc["shape"])):
+            skipped += 1                 # the driver no longer goes through svd_interface / multi_mode_dot: the skeleton is not observable
+            chk.hist("hooi_trace", "not observable (skipped)")
+        elif st == "ok":
+            # the HOOI skeleton: call log of svd_interface / multi_mode_dot vs Model/StructureHooi.v (decisions: answer tape)
+            hid = len(cases)
+            lit, (hf1, hf2) = hooi_case_lit(hid, tc, hspy, out)
+            cases.append(lit)
+            meta.append(dict(kind="DHooi", shape=tc["shape"], spec=tc["rank"], kw={k: v for k, v in tc.items() if k not in ("shape", "rank")}))
+            chk.hist("hooi_trace", tc["entry"] + (":fixed" if tc["fixed"] is not None else "") + (":mask" if tc["mask"] else ""))
+            r = pred_hooi(tc, hf1, hf2)
+            if r:
+                chk.finding("tensorly.decomposition." + tc["entry"], dict({k: (list(v) if isinstance(v, tuple) else v) for k, v in tc.items()}, tucker_case=True, hooi_pred=True), r[0], r[1])
         cx_ = str(tc.get("dtype", "")).startswith("complex")
-        if st == "ok" and not tc["mask"] and prod(tc["shape"]) <= (24 if cx_ else 36) and tc["seed"] % (3 if tier == "quick" else 2) == 0:      # ~0.3 s of exact arithmetic each
+        no_sweep_user_ = tc["init"] == "user" and (tc["n_iter_max"] == 0 or (tc["fixed"] is not None and len(set(tc["fixed"])) >= len(tc["shape"])))
+        if st == "ok" and not tc["mask"] and prod(tc["shape"]) <= (24 if cx_ else 36) and tc["seed"] % (3 if tier == "quick" else 2) == 0 \
+                and not no_sweep_user_ and not symeig_complex_class(tc):                            # (known finding: not evaluated exactly)      # ~0.3 s of exact arithmetic each
             qid = len(cases)
             modes_ = list(range(len(tc["shape"]))) if tc["modes"] is None else list(tc["modes"])
             cases.append(qtucker_lit(qid, X, out[0], out[1], modes_, tol_orth=(2e-3 if (tc["svd"] == "symeig_svd" and tol_for(X) > TOL) else 1e-6 if tc["svd"] == "symeig_svd" else None)))
@@ -1663,6 +1798,7 @@ def _run(chk, rng):
         m = meta[i]
         what = ("corr:C08 (Model/Structure.v cp_run vs control flow of the CP drivers)" if m["kind"] == "DNorm" else
                 "corr:C08 (Model/Structure.v partial_tucker / tucker_fixed vs the implementation's shapes)" if m["kind"] == "DTuckerX" else
+                "corr:C08 (Model/StructureHooi.v hooi_run vs the call log of svd_interface / multi_mode_dot in tucker / partial_tucker)" if m["kind"] == "DHooi" else
                 "corr:C08 (loop skeleton read off the source does not satisfy desc_ok: some exit returns un-normalised factors)" if m["kind"] == "Desc" else
                 "corr:C08 (Model/StructureQ.v: orthonormality / core = projection / cp_normalize evaluated exactly on the outputs)" if m["kind"] == "Q" else
                 "corr:C08 (Model/Structure.v vs rank validators / decomposition shape flow)")
@@ -1721,8 +1857,12 @@ def replay(payload):
     C.reset_backends()
     inp = payload["inputs"]
     if inp.get("tucker_case"):
-        tc = dict(inp); tc.pop("tucker_case")
-        r = pred_tucker_case(tc, *run_tucker_case(tc))
+        tc = dict(inp); tc.pop("tucker_case"); hp = tc.pop("hooi_pred", False)
+        hspy = HooiSpy()
+        res = run_tucker_case(tc, hspy)
+        r = pred_tucker_case(tc, *res)
+        if r is None and hp and res[0] == "ok":
+            r = pred_hooi(tc, *hooi_case_lit(0, tc, hspy, res[1])[1])
     elif "zero_col" in inp and "weights" in inp:
         cc = dict(inp); cc["shape"] = tuple(cc["shape"]); cc["zero_col"] = tuple(cc["zero_col"]) if cc["zero_col"] is not None else None
         cc["tiny_col"] = tuple(cc["tiny_col"]) if cc.get("tiny_col") is not None else None
